@@ -116,6 +116,19 @@ CLAIMED = {
             'uninterpreted count; blacklist with one interval; assignReads verified for joined feature reference_name / sample tag '
             'SM, no bed file, no byValue, no splitFeatures, non-sliding bins; create_count_table iteration over BAM files: A4.',
             '5/C11'),
+    'C04': ('The phred <-> header-safe quality codec is decided exhaustively over all 94 phred characters (total, one safe '
+            'letter each, identity on phred 0..51, saturating above). For tag values that are arbitrary header-safe strings '
+            '(symbolic atoms, any length): asFastq writes "k:v" fields of the writable tags in order and raises ValueError iff the '
+            'header exceeds the 254 characters a read name can hold; decoding that read name restores every written field '
+            'unchanged and nothing else (segment-structural split/join); QueryNameFlagger.digest restores barcode, raw barcode, '
+            'cell index, UMI, decoded UMI qualities, library, strategy, index, Illumina coordinates, sets SM=library_cellindex, '
+            'MI=barcode+UMI+index, the read name and RG, and decodes every read from its own name only (two reads with different '
+            'field sets, both orders).',
+            'fqSafe (a regular expression) is assumed to be the identity on header-safe strings; the structural string rules '
+            '(split/replace/strip on concatenations whose atoms exclude the separator) are trusted engine rules; phred decoding '
+            'inside digest is an uninterpreted function linked to the exhaustive codec unit; representative tag sets; pysam record '
+            'stub; Illumina header variants other than the scmo k:v format are not under contract.',
+            '5/C04'),
 }
 
 NOT_YET = 'check not built yet (framework under construction; see DESIGN.md section 5)'
